@@ -279,9 +279,8 @@ theorem applyTx_total (w w' : World) (env : Env) (s : Nat) (f : Engine.Funds) (t
     repeat' split at h
     all_goals first | (injection h with h; subst h; exact ⟨hk, rfl⟩) | cases h
   case tokenDecrease amt =>
-    split at h
-    · cases h
-    · injection h with h; subst h; exact ⟨hk, rfl⟩
+    repeat' split at h
+    all_goals first | (injection h with h; subst h; exact ⟨hk, rfl⟩) | cases h
   case tokenTransfer to amt =>
     split at h
     · cases h
